@@ -162,3 +162,45 @@ pub fn advance_by_labels(run: &Run, mut node: Node, cfg: &AlphaCfg, prefixes: &[
     }
     Some(node)
 }
+
+/// Histories around a rule-switch height of a legacy network: the root is re-labelled shortly before the boundary (crossing the
+/// TIP-906 activation honestly first where the target lies beyond it) and the search then runs through the blocks around it.
+pub fn boundary_scenarios(cfg: &AlphaCfg, depth: usize, thorough: bool) -> Vec<Scenario> {
+    let cross = |from: u64| vec![Action::Jump(from), Action::Open, Action::Seal(None), Action::Open, Action::Seal(None)];
+    let mut v = vec![];
+    // testnet: every TIP is active from 500; legacy windows end at 500000 (stake rules), 900000 (stake locks), 978392 (deposit rule)
+    let mut t = sc("testnet-deposit-rule-978392", NetID::Testnet, 0, cfg.clone(), depth);
+    t.pre = cross(498);
+    t.pre.push(Action::Jump(978_390));
+    v.push(t);
+    // mainnet: TIP-902 (180000: ERG/SYM pool, peg formula), TIP-909 (950000: subsidy), TIP-909a (1048000), first halving (1950000)
+    let mut m = sc("mainnet-tip902-180000", NetID::Mainnet, 0, cfg.clone(), depth);
+    m.pre = vec![Action::Jump(179_998)];
+    v.push(m);
+    let mut m = sc("mainnet-tip909-950000", NetID::Mainnet, 0, cfg.clone(), depth);
+    m.pre = cross(829_998);
+    m.pre.push(Action::Jump(949_998));
+    v.push(m);
+    if thorough {
+        let mut m = sc("mainnet-deposit-rule-978392", NetID::Mainnet, 0, cfg.clone(), depth);
+        m.pre = cross(829_998);
+        m.pre.push(Action::Jump(978_390));
+        v.push(m);
+        let mut m = sc("mainnet-tip909a-1048000", NetID::Mainnet, 0, cfg.clone(), depth);
+        m.pre = cross(829_998);
+        m.pre.push(Action::Jump(1_047_998));
+        v.push(m);
+        let mut m = sc("mainnet-halving-1950000", NetID::Mainnet, 0, cfg.clone(), depth);
+        m.pre = cross(829_998);
+        m.pre.push(Action::Jump(1_949_998));
+        v.push(m);
+        let mut m = sc("mainnet-tip901-42700", NetID::Mainnet, 0, cfg.clone(), depth);
+        m.pre = vec![Action::Jump(42_698)];
+        v.push(m);
+        let mut t = sc("testnet-tip909-halving-1950000", NetID::Testnet, 0, cfg.clone(), depth);
+        t.pre = cross(498);
+        t.pre.push(Action::Jump(1_949_998));
+        v.push(t);
+    }
+    v
+}
